@@ -156,7 +156,7 @@ func Message(c *C, n *N) {
 		c.Pad(3)
 		c.U(n, "Config", 4)
 	case "multipart_request":
-		c.U(n, "Type", 2)
+		c.URole(n, "Type", 2, "type")
 		c.U(n, "Flags", 2)
 		c.Pad(4)
 		switch n.U["Type"] {
@@ -179,7 +179,7 @@ func Message(c *C, n *N) {
 			c.Rest(n, "Data")
 		}
 	case "multipart_reply":
-		c.U(n, "Type", 2)
+		c.URole(n, "Type", 2, "type")
 		c.U(n, "Flags", 2)
 		c.Pad(4)
 		switch n.U["Type"] {
@@ -299,7 +299,7 @@ func Port(c *C, e *N) {
 
 func helloElem(c *C, e *N) {
 	f := c.Begin("hello_elem")
-	c.U(e, "Type", 2)
+	c.URole(e, "Type", 2, "type")
 	c.Len(f, 2)
 	c.Scope(f, Exact, 4)
 	if e.U["Type"] == 1 {
@@ -367,8 +367,8 @@ func (c *C) endFixed(f *Frame, mode LenMode) {
 // ---- experimenter messages -------------------------------------------------------------------
 
 func experimenter(c *C, n *N) {
-	c.U(n, "Vendor", 4)
-	c.U(n, "ExperimenterType", 4)
+	c.URole(n, "Vendor", 4, "type")
+	c.URole(n, "ExperimenterType", 4, "type")
 	key := [2]uint64{n.U["Vendor"], n.U["ExperimenterType"]}
 	switch key {
 	case [2]uint64{NXVendor, 20}:
